@@ -347,7 +347,10 @@ fn generate_family(id: &str, run_seed: u64, _thorough: bool) -> Plan {
         }
         "C14" => f_push(run_seed, pick < 35),
         "C16" => {
-            if pick < 77 {
+            if pick >= 97 {
+                // requests with more than 1000 messages / ack IDs whose client goes away
+                f_cancel_big(run_seed)
+            } else if pick < 77 {
                 f_cancel(run_seed)
             } else if pick < 85 {
                 // push subscriptions whose creating client goes away before it is answered
